@@ -5,6 +5,7 @@ import (
 	"runtime"
 	"strings"
 	"sync"
+	"time"
 
 	"github.com/gammazero/nexus/v3/router"
 	"github.com/gammazero/nexus/v3/wamp"
@@ -148,6 +149,22 @@ func runC07Concurrent(c *Case) {
 		}
 		pub.p.Send(&wamp.Publish{Request: 1, Options: wamp.Dict{"acknowledge": true}, Topic: "churn.topic", Arguments: wamp.List{0}})
 		cl.p.Send(&wamp.Call{Request: 1, Options: wamp.Dict{}, Procedure: "churn.proc", Arguments: wamp.List{0}})
+		if c.Index%8 == 7 {
+			// every other concurrent case: the router is closed while all of this is in full swing (meta calls,
+			// churn and traffic in flight): Close must return and leave nothing behind
+			time.Sleep(time.Duration(c.Rng.IntN(50)) * time.Microsecond)
+			c.Hit("ST5")
+			returned := w.RunBlocked(func() { w.Router.Close() }, time.Second, 10*time.Second, 2*time.Minute)
+			w.MarkClosed()
+			if !returned {
+				c.Fail("SD1", "router close did not return", "Router.Close() called while closed-loop sessions (churn, meta API, traffic) were running did not return within 2 virtual minutes\n%s", strings.Join(clip(sim.Leaked(), 6), "\n\n"))
+			}
+			rep := w.Teardown()
+			for _, g := range rep.Leaked {
+				c.Fail("SD5", "goroutine left after close: "+leakSig(g), "%s", g)
+			}
+			return
+		}
 		w.Wait()
 		mu.Lock()
 		stuck := false
